@@ -10,6 +10,12 @@ pub mod shapes;
 
 pub mod props;
 
+/// The real `blots-wasm` driver source, compiled into the harness (the crate itself is a cdylib). On a native
+/// target its hand-over to the JS host panics in the wasm-bindgen stubs; hook H6 reports the text just before.
+#[allow(dead_code, unused_imports, clippy::all)]
+#[path = "/repo/blots-wasm/src/lib.rs"]
+pub mod wasm_driver;
+
 use std::collections::HashMap;
 
 #[derive(Clone, Debug)]
